@@ -209,7 +209,24 @@ func PlayCopyBin(scn M, rng *rand.Rand) ([]M, error) {
 		chunks = append(chunks, []byte{})
 	}
 
-	cfg := M{"auth": "none", "tls": "nil", "params": M{}, "version": "", "mw": []any{}, "term": "none", "limit": 1 << 20}
+	limit := I(scn, "limit")
+	if limit <= 0 {
+		limit = 1 << 20
+	} else {
+		// a small message size limit: every CopyData message fits it (pieces between half the limit and the
+		// limit), however the stream was cut before - reassembled rows may well be longer than one message
+		var fit [][]byte
+		for _, ch := range chunks {
+			for len(ch) > limit {
+				n := limit/2 + 1 + rng.Intn(limit/2)
+				fit = append(fit, ch[:n])
+				ch = ch[n:]
+			}
+			fit = append(fit, ch)
+		}
+		chunks = fit
+	}
+	cfg := M{"auth": "none", "tls": "nil", "params": M{}, "version": "", "mw": []any{}, "term": "none", "limit": limit}
 	x, err := NewExec(cfg)
 	if err != nil {
 		return nil, err
@@ -246,6 +263,7 @@ func PlayCopyBin(scn M, rng *rand.Rand) ([]M, error) {
 	clean := Clean(scn).(map[string]any)
 	delete(clean, "cuts")
 	delete(clean, "bytecuts")
+	delete(clean, "limit")
 	out := []M{{"k": "scn", "s": clean}}
 	for _, e := range x.Log.Events() {
 		if e["k"] != "cb" {
